@@ -341,14 +341,22 @@ def run(tree, rep, tier):
         c16_r2(tree, sub)
     except AnalysisError:
         pass        # a later part of that rule could not be evaluated; what it established so far stands
+    # ... and the handle of the interval timer is cleared when it fires and cancelled when the connection goes: a stale handle makes the
+    # next arm / cancel raise (AlreadyCalled / AlreadyCancelled) inside connector_connection_lost or connector_connection_made, BEFORE the
+    # state machine hears of the event - the Leader stays CONNECTED on a dead link and never sends RECONNECT
+    handle = lambda text: "timer" in text and "pong" not in text and "ping with" not in text      # the timer-handle subset, not the ping/pong rules
     for o in sub.obligations:
-        if o["rule"] == "C16.R2" and "wired" in o["instance"]:
+        if o["rule"] == "C16.R2" and handle(o["instance"]):
             rep.obligations.append(dict(o, rule="C11.R7"))
             rep.evaluations += 1
     for v in sub.violations:
         if v["key"] == "C16.R2:timer-wiring":
             rep.violation("C11.R7", "C11.R7:timer-wiring", v["what"] + " (the Leader's timer keeps the first connection's disconnect: a later silent connection "
                           "is never dropped, no reconnect is sent, the Follower waits forever)", v.get("site"), v.get("detail"), _count=False)
+        elif v["rule"] == "C16.R2" and ("timer" in v["key"] or "expiry" in v["key"] or "arm" in v["key"]):
+            rep.violation("C11.R7", v["key"].replace("C16.R2", "C11.R7"), v["what"] + " (a stale timer handle raises inside the Manager's connection "
+                          "made / lost handling before the state machine is told: the Leader never sends RECONNECT and the two sides do not re-converge)",
+                          v.get("site"), v.get("detail"), _count=False)
     r8(tree, rep, tier)
 
 
